@@ -4,7 +4,7 @@
    buffered job queues.  Data races and panics inside callee packages are only exercised by the harness
    (race detector in the thorough tier); they are not proved absent. *)
 From Coq Require Import List NArith Bool Lia.
-From Regal Require Import Base.StrLit Model.LspGuards Gen.LspShape Proofs.LspGuards.
+From Regal Require Import Base.StrLit Model.LspGuards Gen.LspShape Proofs.LspGuards Model.LspCache Proofs.LspCache.
 Import ListNotations.
 Local Open Scope nat_scope.
 
@@ -70,3 +70,21 @@ Theorem guard_sites_match :
   forallb site_modelled modelled_sites = true.
 Proof. exact sites_match_lemma. Qed.
 Print Assumptions guard_sites_match.
+
+(* The cache is the state shared by the request handler and the two lint workers.  Slices handed out by a getter are
+   read outside the map's lock (sendFileDiagnostics encodes them while another worker updates the same entry), so
+   absence of races on it rests on two conventions, tied to the source here and re-proved on every run against the
+   regenerated Gen/LspShape.v: every access goes through a method of the concurrent map (the listed accesses are
+   all there are; a read-modify-write of one entry is ONE UpdateValue, never Get then Set), and no function of the
+   cache writes through a slice or map it did not create itself (no in-place filtering of a stored / handed-out
+   slice).  The cache-level harness checks the same behaviourally: earlier results are kept and compared again after
+   later operations, and concurrent histories run under the race detector in the thorough tier. *)
+Theorem cache_values_never_written_through :
+  cache_found = true /\
+  cache_funcs = map lit cache_funcs_modelled /\
+  cache_sites = map render_site cache_sites_modelled /\
+  cache_inplace = map render_inplace cache_inplace_modelled /\
+  no_get_then_set cache_sites_modelled = true /\
+  inplace_only_fresh cache_inplace_modelled = true.
+Proof. exact cache_values_shape_lemma. Qed.
+Print Assumptions cache_values_never_written_through.
